@@ -11,7 +11,7 @@ local macro "evalm" : tactic => `(tactic|
   simp [execCore, exec, execOp, saveContext, pushFrame, tick, raise, raiseInner, throwVal, catchable, resetGuards,
     runHandler, runHandlerN, tickOr, pushVals, longjmp, thenTick, catchFinish, safeFinish, callFinish, leaveCall, safeCtx,
     restoreContext, popFrame, popN, popStack, afterCatch, popContext, limitBits, handlerRegs, masterVal, enterCall,
-    adjustArgs, framesOf, hasReturnTick, depthCheck, setRegister, topBody, topFinish, tmpFinish, loadFinish])
+    adjustArgs, framesOf, hasReturnTick, depthCheck, setRegister, topBody, topFinish, tmpFinish, loadFinish, dhookFinish])
 
 def okInstalled : Res → Option (List String)
   | .ok m => some m.installed
@@ -42,10 +42,10 @@ theorem fixed_input_to_leaves_nothing :
 /-- the state in which an error arrives inside a master function that was safe_apply'd with two arguments but
     declares none (they were dropped on entry): the value stack is empty, one frame, one context -/
 def surplusErr : M :=
-  { vs := [], cs := [Frame.mk FK.function {}], ctxs := [Ctx.mk 2 0 0] }
+  { vs := [], cs := [Frame.mk FK.function {}], ctxs := [Ctx.mk 2 0 0 0 0] }
 
 def leakErr : M :=
-  { vs := [Slot.val, Slot.val], cs := [Frame.mk FK.function {}], ctxs := [Ctx.mk 1 0 0] }
+  { vs := [Slot.val, Slot.val], cs := [Frame.mk FK.function {}], ctxs := [Ctx.mk 1 0 0 0 0] }
 
 /-- the defect repaired by `fix: safe_apply() removes its arguments …`: with the context as saved (save_sp counts
     the two arguments) restore_context computes a negative pop count — the crash outcome -/
@@ -60,7 +60,7 @@ theorem fixed_safe_apply_surplus_recovers :
 
 /-- and the leak: one argument, one declared, error in the callee — as saved, the argument stays on the stack -/
 theorem prefix_safe_apply_leaks_argument :
-    okDepth (safeFinish (Ctx.mk 1 0 0) [] 1 (.err leakErr)) = some (1, 0, 0) := by
+    okDepth (safeFinish (Ctx.mk 1 0 0 0 0) [] 1 (.err leakErr)) = some (1, 0, 0) := by
   simp [okDepth, leakErr]; evalm
 
 /-- end to end through the model's (repaired) safe_apply: two arguments, none declared, the callee raises -/
@@ -87,10 +87,32 @@ def errLoadDepth : Res → Option Int
 /-- `throw()` goes straight to longjmp without `error_handler`: unlike an error, a thrown value caught by a catch
     does NOT reset the load-depth guard (observation recorded in notes/C05.md) -/
 def inCatchLoading : M :=
-  { loadDepth := 3, inMudlibHandler := true, cs := [Frame.mk FK.catch_ {}], ctxs := [Ctx.mk 0 0 0] }
+  { loadDepth := 3, inMudlibHandler := true, cs := [Frame.mk FK.catch_ {}], ctxs := [Ctx.mk 0 0 0 0 0] }
 
 theorem throw_does_not_reset_guards : errLoadDepth (throwVal "t" inCatchLoading) = some 3 := by
   simp [errLoadDepth, inCatchLoading]; evalm
+
+def okGuards : Res → Option (Int × Val)
+  | .ok m => some (m.loadDepth, m.restrictDestruct)
+  | _ => none
+
+/-- the defect repaired by `fix: error contexts save and restore the load-depth and destruct-restriction guards`, on
+    the model of the repaired code: `catch(load_object(X))` with a `throw()` in X's create() — the thrown value skips
+    `error_handler` (guards untouched, see above) but `restore_context` puts back the values of the catch point -/
+theorem caught_throw_in_load_restores_guards :
+    okGuards (execCore (.catch_ (.cons (.load (.cons (.throw_ "t") .nil)) .nil)) {}) = some (0, 0) := by
+  simp [okGuards]; evalm
+
+/-- a catch inside create() (load in progress, depth 1) that catches an error continues at depth 1, so the
+    enclosing load ends at 0 — before the repair the counter was cleared by error_handler and ended at -1 -/
+theorem catch_in_create_keeps_depth :
+    okGuards (execCore (.load (.cons (.catch_ (.cons (.raise "*e") .nil)) .nil)) {}) = some (0, 0) := by
+  simp [okGuards]; evalm
+
+/-- a throw inside a move_or_destruct() hook caught around destruct(): the restriction is that of the catch point -/
+theorem caught_throw_in_dhook_restores_guards :
+    okGuards (execCore (.catch_ (.cons (.dhook 7 (.cons (.throw_ "t") .nil)) .nil)) {}) = some (0, 0) := by
+  simp [okGuards]; evalm
 
 theorem error_resets_guards_example : errLoadDepth (raise "*e" inCatchLoading) = some 0 := by
   simp [errLoadDepth, inCatchLoading]; evalm
